@@ -3,6 +3,8 @@ package cmd
 import (
 	"os"
 
+	"github.com/kevin-hanselman/dud/src/fsutil"
+	"github.com/pkg/errors"
 	"github.com/spf13/cobra"
 )
 
@@ -13,6 +15,16 @@ func init() {
 		Long:  `Init initializes a Dud project in the current directory.`,
 		Args:  cobra.NoArgs,
 		Run: func(cmd *cobra.Command, args []string) {
+			// Never clobber the index and config of an existing project.
+			for _, path := range []string{indexPath, ".dud/config.yaml"} {
+				exists, err := fsutil.Exists(path, false)
+				if err != nil {
+					fatal(err)
+				}
+				if exists {
+					fatal(errors.Errorf("%s already exists; this directory is already a Dud project", path))
+				}
+			}
 			if err := os.MkdirAll(".dud/cache", 0o755); err != nil {
 				fatal(err)
 			}
